@@ -25,7 +25,7 @@ ASSUMPTIONS = ["sequences are sampled by seed; injection points are enumerated p
                "for GraphStream.graph() a failure inside a graph may keep or drop the triples of that graph that were "
                "accepted before the failing one"]
 EXHAUSTIVE_NOTE = "per sequence: every position x slot x applicable cause"
-PROBES = ["cause_bad_namespace", "cause_unsupported", "cause_typed_literal", "cause_short_tuple", "slot_nested", "slot_g",
+PROBES = ["reenroll_after_reject", "cause_bad_namespace", "cause_unsupported", "cause_typed_literal", "cause_short_tuple", "slot_nested", "slot_g",
           "stream_refused_later_use", "no_trace", "physical_GRAPHS", "integration_rdflib"]
 SHRINK_LISTS = ["ops"]
 
@@ -104,7 +104,7 @@ def bad_statement(cfg, st, slot, cause, lex):
     return objs
 
 
-def drive(cfg, stmts, inj, lex):
+def drive(cfg, stmts, inj, lex, reenroll=False):
     """Feed the statements one by one, injecting the bad statement before position inj[0].
     Returns (bytes, info)."""
     pos, slot, cause = inj
@@ -152,6 +152,8 @@ def drive(cfg, stmts, inj, lex):
                 info["rejected"] = True
                 info["exc"] = type(e).__name__
         try:
+            if reenroll and info["rejected"]:
+                stream.enroll()      # what stream_frames() does at the start of every batch
             submit([conv(t) for t in st], st)
             info["accepted"].append(st)
             if info["rejected"] or i > pos:
@@ -180,6 +182,7 @@ def execute(plan, sim):
     seen = set()
     nontrivial = 0
     todo = injections(cfg, stmts)
+    idx = plan.get("run", 0)
     for inj in todo:
         pos, slot, cause = inj
         sim.count("evaluations")
@@ -189,8 +192,12 @@ def execute(plan, sim):
             sim.count("slot_" + slot)
         if 0 < pos < len(stmts) - 1:
             nontrivial += 1
-        data, info = drive(cfg, stmts, inj, plan["bad_lex"])
-        sim.event("inject", pos, slot, cause, info["rejected"], info["exc"], info["later_ok"],
+        reenroll = bool(idx % 2)
+        idx += 1
+        data, info = drive(cfg, stmts, inj, plan["bad_lex"], reenroll=reenroll)
+        if reenroll:
+            sim.count("reenroll_after_reject")
+        sim.event("inject", pos, slot, cause, reenroll, info["rejected"], info["exc"], info["later_ok"],
                   info["later_raised"], len(data))
         if not info["rejected"]:
             continue            # the statement was not rejected: nothing to judge here
